@@ -12,7 +12,7 @@ K = 'kani'
 B = 'bounded'
 S = 'shape'
 
-HOOK_COMMITS = ['e7360bf', 'a5a66f0']
+HOOK_COMMITS = ['e7360bf', 'a5a66f0', '40f0091']
 NOTES = ('Every check is ./check <ID>; the registry of components per property is vlib/registry.py. '
          'Verus obligations are generated from functions cut out of /repo/src on every run (vlib/extract.py); '
          'bounded stand-ins are labelled bounded in the evidence and never counted as obligations.')
@@ -64,9 +64,9 @@ PROPS = {
         level_note=LEMMA_NOTE + COMMON_NOTE,
     ),
     'C04': dict(
-        components=[('kani', 'alphabet_leaf', {})] + U1 + [b('bisim', families='small,abc,ci,wide'),
+        components=[('kani', 'alphabet_leaf', {})] + U1 + [(V, 'u3_dfa', {}), (V, 'u3_nnfa', {}), (V, 'u3_cnfa', {}), ('kani', 'nnfa_leaf', {}), b('bisim', families='small,abc,ci,wide'),
                          sem('std,lf,ll', 'find,iter,ov,anch', families='small,abc', cfgs='all', rel='kind', thorough_aspects='find,iter,ov,anch,spans')],
-        level_text='Proof (Verus): every search API is a function of the abstract automaton only (find_spec / ov_remaining over AC), so two representations with equal abstract behaviour give equal results for every haystack. Bounded stand-in (exhaustive over haystacks per pattern list): product BFS bisimulation of the reference noncontiguous NFA with every contiguous/DFA/dense-depth/byte-class configuration over all 256 bytes from both start states; top-level vs low-level use compared through the API.',
+        level_text='Proof (Verus): every search API is a function of the abstract automaton only (find_spec / ov_remaining over AC), so two representations with equal abstract behaviour give equal results for every haystack; the accessors of each representation are proved to compute the abstract transition function of that representation (u3_dfa, u3_nnfa: a densified state answers exactly like its sparse chain; u3_cnfa: the dense, one-transition and sparse encodings all answer c_lookup). Bounded stand-in (exhaustive over haystacks per pattern list): product BFS bisimulation of the reference noncontiguous NFA with every contiguous/DFA/dense-depth/byte-class configuration over all 256 bytes from both start states; top-level vs low-level use compared through the API.',
         level_note=COMMON_NOTE + ' The lifting "bisimilar automata => equal API results" (L-bisim) is an unmechanised consequence of the proved postconditions being functions of the AC ghost state only.',
     ),
     'C05': dict(
@@ -127,8 +127,8 @@ PROPS = {
         level_note=COMMON_NOTE + ' Raw-pointer code (Teddy, is_prefix_raw) is covered by bounded runs only until the Kani unit lands.',
     ),
     'C16': dict(
-        components=[(V, 'u1_search', {}), (V, 'u1_recipe', {}), (V, 'u3_dfa', {}), b('ac', families='small,abc,ci,many,wide'), b('repr')],
-        level_text='The Automaton contract AC is the hypothesis the proved search loops consume (Verus). The search routine printed in the trait documentation is cut out of the doc comment and proved to return the same find_spec as the built-in search (u1_recipe). For dfa::DFA the accessors themselves are proved (u3_dfa) under the representation invariant dfa_wf: next_state never indexes out of bounds and returns a state id, the dead state is absorbing, is_dead/is_match/is_special/is_start are the id comparisons of the layout, dead and match imply special, match_len/match_pattern index a non-empty list of valid pattern ids, start_state fails exactly for the mode whose start id is the dead state; dfa_wf is executed on the whole table of every real DFA of the bounded space (repr, hook H1). Bounded stand-in, exhaustive per automaton: every clause of AC evaluated on all reachable states x 256 bytes x both anchoring arguments of every automaton of the bounded pattern space.',
+        components=[(V, 'u1_search', {}), (V, 'u1_recipe', {}), (V, 'u3_dfa', {}), (V, 'u3_nnfa', {}), (V, 'u3_cnfa', {}), ('kani', 'nnfa_leaf', {}), b('ac', families='small,abc,ci,many,wide'), b('repr'), b('repr-nnfa'), b('repr-cnfa')],
+        level_text='The Automaton contract AC is the hypothesis the proved search loops consume (Verus). The search routine printed in the trait documentation is cut out of the doc comment and proved to return the same find_spec as the built-in search (u1_recipe). For dfa::DFA the accessors themselves are proved (u3_dfa) under the representation invariant dfa_wf: next_state never indexes out of bounds and returns a state id, the dead state is absorbing, is_dead/is_match/is_special/is_start are the id comparisons of the layout, dead and match imply special, match_len/match_pattern index a non-empty list of valid pattern ids, start_state fails exactly for the mode whose start id is the dead state; dfa_wf is executed on the whole table of every real DFA of the bounded space (repr, hook H1). The same for the two NFAs: nfa::contiguous (u3_cnfa: next_state over the packed u32 encoding with its dense / one-transition / sparse states, failure loop, match_len/match_pattern decoders, all index arithmetic and bit operations) and nfa::noncontiguous (u3_nnfa: next_state with its failure loop, follow_transition with the dense row; the three iterator-closure helpers follow_transition_sparse/match_len/match_pattern are outside the Verus subset and are checked against the same definitions by Kani group nnfa_leaf, bounded by table size 5), under cnfa_wf / nnfa_wf, executed on every state x byte of every real NFA of the bounded space (repr-cnfa, repr-nnfa). Bounded stand-in, exhaustive per automaton: every clause of AC evaluated on all reachable states x 256 bytes x both anchoring arguments of every automaton of the bounded pattern space.',
         level_note=COMMON_NOTE,
     ),
     'C17': dict(
@@ -144,8 +144,8 @@ PROPS = {
         level_note=COMMON_NOTE + ' Writer-fault half: try_stream_replace_all_with propagates every error with `?` and never panics (u2_replace); that the bytes written before a writer fault are a prefix of the fault-free output is decided by the bounded companion only.',
     ),
     'C19': dict(
-        components=[(V, 'u1_search', {}), (V, 'u1_overlap', {}), b('faildepth')],
-        level_text='Proof (Verus): both search loops perform one next_state call per iteration and every iteration strictly increases the position (decreases clauses), so at most one transition per byte. Bounded stand-in through hooks: depth(fail(s)) < depth(s) for every state of the noncontiguous NFA; counters: transitions <= span length, failure traversals <= transitions (NFAs), zero (DFA).',
+        components=[(V, 'u1_search', {}), (V, 'u1_overlap', {}), (V, 'u3_nnfa', {}), (V, 'u3_cnfa', {}), (V, 'u3_dfa', {}), b('faildepth'), b('repr-nnfa'), b('repr-cnfa')],
+        level_text='Proof (Verus): both search loops perform one next_state call per iteration and every iteration strictly increases the position (decreases clauses), so at most one transition per byte. The real next_state of both NFAs is proved to terminate with the potential argument behind the amortised bound: failure steps + rank(result) <= rank(state) + 1 for any rank function that strictly decreases along the failure link of every state with an undefined transition and grows by at most one along a transition (tagged [C19] obligations in u3_nnfa / u3_cnfa; such a rank — breadth-first depth — is exhibited on every real NFA of the bounded space by repr-nnfa / repr-cnfa); next_state of the DFA is a single table lookup without a loop (u3_dfa). Bounded stand-in through hooks: depth(fail(s)) < depth(s) for every state of the noncontiguous NFA; counters: transitions <= span length, failure traversals <= transitions (NFAs), zero (DFA).',
         level_note=COMMON_NOTE,
     ),
     'C20': dict(
